@@ -320,13 +320,13 @@ package cputensor
 //@   requires l < u && forall(k, 0, len(dims), dims[k] > 0)
 //@   assumed L2 initWith.fill with a drawing generator; gonum distuv (external); bounded stand-in: rac TestRandom
 //@   returns fresh
-//@   ensures t != nil && hasShape(t, dims) && forallJ(J, imp(inb(t, J), l <= el(t, J) && el(t, J) < u))
+//@   ensures t != nil && hasShape(t, dims) && forallJ(J, imp(inb(t, J), l <= el(t, J) && el(t, J) < u)) && drawnU(t, l, u)
 
 //@ func normalRandomTensor
 //@   requires s > 0 && forall(k, 0, len(dims), dims[k] > 0)
 //@   assumed L2 initWith.fill with a drawing generator; gonum distuv (external); bounded stand-in: rac TestRandom
 //@   returns fresh
-//@   ensures t != nil && hasShape(t, dims)
+//@   ensures t != nil && hasShape(t, dims) && drawnN(t, u, s)
 
 /* ---------------- cputensor_helpers.go ---------------- */
 
@@ -423,14 +423,14 @@ package cputensor
 //@   public
 //@   returns fresh
 //@   ensures[C09,C18] iff(err == nil, l < u && dimsOK(dims)) && imp(err != nil, o == nil)
-//@   ensures[C18] imp(err == nil, o != nil && hasShape(o, dims) && forallJ(J, imp(inb(o, J), l <= el(o, J) && el(o, J) < u)))
+//@   ensures[C18] imp(err == nil, o != nil && hasShape(o, dims) && forallJ(J, imp(inb(o, J), l <= el(o, J) && el(o, J) < u)) && drawnU(o, l, u))
 //@   ensures[C08,C18] imp(err == nil, leafCtx(o, withGrad))
 
 //@ func RandN
 //@   public
 //@   returns fresh
 //@   ensures[C09,C18] iff(err == nil, s > 0 && dimsOK(dims)) && imp(err != nil, o == nil)
-//@   ensures[C18] imp(err == nil, o != nil && hasShape(o, dims))
+//@   ensures[C18] imp(err == nil, o != nil && hasShape(o, dims) && drawnN(o, u, s))
 //@   ensures[C08,C18] imp(err == nil, leafCtx(o, withGrad))
 
 //@ define catDimsOK(ts, dim) := forall(a, 0, len(ts), ts[a] != nil && rank(ts[a]) > 0 && rank(ts[a]) == rank(ts[0]) && 0 <= dim && dim < rank(ts[0])
